@@ -9,6 +9,7 @@ import PygVerif.Model.Cache
 import PygVerif.Model.Fail
 import PygVerif.Model.Zip
 import PygVerif.Model.Frame
+import PygVerif.Model.Site
 import PygVerif.Driver.TalIO
 /-!
 # Driver — line protocol between the Python harness and the executable model
@@ -110,6 +111,50 @@ def mkRenderCfg (srvName : Str) (srvPort : Nat) (absHeaders : Bool) (absEntries 
     accesskeys := Generated.accesskeys, queryPrefix := Generated.queryPrefix, admin := Generated.gplusAdmin,
     modDate := fun _ => none, abstractHeaders := absHeaders, abstractEntries := absEntries }
 
+
+/-- build a tree from `path;kind;data` records (parents may be implicit) -/
+partial def insertNode (n : Node) (path : List Str) (x : Node) : Node :=
+  match path with
+  | [] => x
+  | c :: cs =>
+    match n with
+    | .dir kids =>
+      if kids.any (·.1 == c) then .dir (kids.map fun (nm, k) => if nm == c then (nm, insertNode k cs x) else (nm, k))
+      else .dir (kids ++ [(c, insertNode (.dir []) cs x)])
+    | other => other
+
+def decTree (s : String) : Node :=
+  if s == "~" then .dir [] else
+  (s.splitOn " ").foldl (fun root r =>
+    match r.splitOn ";" with
+    | [p, k, d] =>
+      let comps := (splitOn 47 (decStr p)).filter (· != [])
+      let x : Node := if k == "d" then .dir [] else if k == "f" then .file (decStr d) else .other
+      if comps.isEmpty then root else insertNode root comps x
+    | _ => root) (.dir [])
+
+def decTable2 (s : String) : List (Str × Str) :=
+  if s == "~" then [] else (s.splitOn " ").filterMap fun r =>
+    match r.splitOn ";" with
+    | [a, b] => some (decStr a, decStr b)
+    | _ => none
+
+def decGuess (s : String) : List (Str × (Option Str × Option Str)) :=
+  if s == "~" then [] else (s.splitOn " ").filterMap fun r =>
+    match r.splitOn ";" with
+    | [a, m, e] => some (decStr a, (decOpt m, decOpt e))
+    | _ => none
+
+def mkSiteCfg (umn gm : Bool) (alts : List RAlt) (g : String) (t : String) (st : String) : SiteCfg :=
+  let gt := decGuess g
+  let tt := decTable2 t
+  let stt := decTable2 st
+  { forbidden := Generated.forbidden, eaexts := Generated.eaexts, defaultMime := Generated.defaultMime, gophermap := gm,
+    dir := { ignore := alts, extstrip := Generated.extstrip, umn := umn },
+    guess := fun sel => ((gt.find? (·.1 == sel)).map (·.2)).getD (none, none),
+    typeOf := fun m => ((tt.find? (·.1 == m)).map (·.2)).getD (lit "0"),
+    strip := fun n => ((stt.find? (·.1 == n)).map (·.2)).getD n }
+
 def tstateOf (s : String) : TState :=
   match s with | "tag" => .tag | "dq" => .attrDq | "sq" => .attrSq | _ => .text
 
@@ -202,6 +247,39 @@ def step (fields : List String) : String :=
                  (viewOf view) (decBool gplusReq) self es with
          | none => "CRASH-RENDER"
          | some b => encStr b)
+  | ["site", umn, gm, view, gplusReq, srvName, srvPort, absH, absE, tree, g, t, st, queries] =>
+    (match parseRegex Generated.ignorePatt with
+     | none => "REGEX-UNSUPPORTED"
+     | some alts =>
+       let R := decTree tree
+       let c := mkSiteCfg (decBool umn) (decBool gm) alts g t st
+       let sf : StatFn := statAt R
+       " ".intercalate ((decList queries).map fun q =>
+         (match serve c sf q with
+          | .notFound => "N"
+          | .menu => "M"
+          | .document d => "D:" ++ encStr d) ++ "|" ++
+         (match dispatch c sf q with
+          | .notFound => "n" | .gophermapDir => "gd" | .gophermapFile => "gf" | .dir => "d" | .file => "f") ++ "|" ++
+         (if (dispatch c sf q).isMenu then
+            match siteEntries c sf q with
+            | none => "CRASH-LISTING"
+            | some es =>
+              let self : Entry := (entryAt c sf q).getD { selector := q }
+              match listingBody (mkRenderCfg (decStr srvName) srvPort.toNat! (decBool absH) (decStr absE))
+                      (viewOf view) (decBool gplusReq) self es with
+              | none => "CRASH-RENDER"
+              | some b => encStr b
+          else "!")))
+  | ["kstat", tree, rootStr, queries] =>
+    -- the kernel's view: the whole file system `tree`, the configured root path, selectors
+    let W := decTree tree
+    " ".intercalate ((decList queries).map fun q =>
+      match kstat W (decStr rootStr) q with
+      | none => "-"
+      | some (.dir kids) => "d:" ++ encList (kids.map (·.1))
+      | some (.file d) => "f:" ++ encStr d
+      | some .other => "o")
   | ["research", s] =>
     (match parseRegex Generated.ignorePatt with
      | none => "REGEX-UNSUPPORTED"
